@@ -542,6 +542,145 @@ def check_variant(ctx, lin, exe, variant, cases, workdir, stats):
     return viol
 
 
+# ---------------------------------------------------------------------------------------------------------
+# IMPLEMENTATION-guided window schedules for variants without a step model (the RCU skip lists: seeded change C15d was missed).
+# The harness logs every atomic access of the real code; `monitor tsteps` / `monitor twrites` give, per worker, the number of
+# scheduled steps and which of them are CAS / exchange accesses.  lib/conc_windows2.expand() takes its probe profiles from runs
+# of the REAL variant (profiler=...): each worker solo on the prefilled container, then the actor solo in the state "victim
+# stalled right before its k-th write"; the window schedules are the same as for the step models (victim stalled before a
+# write, actor exactly through one of its writes / its whole program, r swept, third thread before / after / in between).
+# The oracle is the one of every observable case: verified lincheck on the history + quiescent monitors.
+#   (name, prefill mask, tower heights of keys 0..7, programs [code, key, value, tower height])
+WINDOW_OBS_SKIP = [
+    ("erase_vs_succ_insert", 0b00000010, [0, 0, 0, 0, 0, 0, 0, 0], [[[6, 1, 0, 0]], [[1, 2, 21, 0]], [[10, 1, 0, 0]]]),
+    ("erase_vs_succ_erase", 0b00000110, [0, 1, 0, 0, 0, 0, 0, 0], [[[6, 1, 0, 0]], [[6, 2, 0, 0]], [[1, 3, 31, 1]]]),
+    ("extract_vs_succ_insert", 0b00000010, [0, 1, 0, 0, 0, 0, 0, 0], [[[8, 1, 0, 0]], [[1, 2, 21, 1]], [[6, 1, 0, 0]]]),
+    ("ins_between_erases", 0b00000101, [1, 0, 0, 0, 0, 0, 0, 0], [[[1, 1, 11, 1]], [[6, 0, 0, 0]], [[6, 2, 0, 0]]]),
+    ("extract_min_vs_updates", 0b00001110, [0, 0, 1, 0, 0, 0, 0, 0], [[[13, 0, 0, 0]], [[6, 2, 0, 0]], [[1, 0, 31, 0]]]),
+    ("erase_ins_pairs", 0b00000100, [0, 0, 0, 0, 0, 0, 0, 0], [[[1, 1, 11, 0], [6, 1, 0, 0]], [[6, 2, 0, 0], [1, 2, 22, 1]]]),
+]
+WINDOW_OBS_VARIANTS_RCU = [2, 3, 12, 13, 61]                    # SkipListSet / SkipListMap / intrusive SkipListSet over RCU
+WINDOW_OBS_VARIANTS_ALL = [0, 1, 2, 3, 10, 11, 12, 13, 60, 61]  # thorough: the HP / DHP skip lists too
+WINDOW_OBS_QUICK = 220
+WINDOW_OBS_THOROUGH = 2500
+
+
+def gen_impl_window_cases(ctx, exe, variant, rng, workdir):
+    """-> (cases, info) for one observable skip-list variant"""
+    import conc_windows2
+
+    def profiler(cases, tag):
+        for c in cases:
+            c["variant"] = variant
+        rc, outs, raw = run_harness(exe, cases, workdir, "wp%d_%s" % (variant, tag), timeout=600)
+        logs = {}
+        for c in cases:
+            o = outs.get(c["id"])
+            if o is None or "tsteps" not in o["mon"] or o["end"] != "finished":
+                continue
+            ts = {i: int(x) for i, x in enumerate(o["mon"]["tsteps"])}
+            tw = {}
+            for item in o["mon"].get("twrites", []):
+                t, _, ps = item.partition(":")
+                tw[int(t)] = [int(x) for x in ps.split(",") if x]
+            logs[c["id"]] = conc_windows2.pseudo_log(ts, tw)
+        return logs
+    th = ctx.thorough()
+    templates = [{"name": n, "cfg": [variant, mask] + hs, "threads": parts, "setup": 0} for n, mask, hs, parts in WINDOW_OBS_SKIP]
+    cases, info = conc_windows2.expand(None, workdir, templates, "wo%d_" % variant, r_values=(0, 1, 2, 3, 5, 8, 12) if th else (0, 1, 3, 8),
+                                       read_points=False, max_wv=8, max_wa=5 if th else 4, staged=False, lazy=True, big=400, profiler=profiler)
+    info["enumerated"] = len(cases)
+    cases = conc_windows2.finalize(conc_windows2.stratified(rng, cases, WINDOW_OBS_THOROUGH if th else WINDOW_OBS_QUICK))
+    for c in cases:
+        c["variant"] = variant
+        c["hmode"] = "window"
+    info["run"] = len(cases)
+    info.pop("per_template", None)
+    return cases, info
+
+
+# ---------------------------------------------------------------------------------------------------------
+# Directed family for the delete-undo branch of EllenBinTree::help_delete (seeded change C15c: the grandparent's update word
+# restored with the version number of the wrong node).  The branch needs a remover parked between its search and its DFlag CAS
+# while an insert changes its parent, and its damage needs a second thread holding a search result on the same grandparent
+# from before:   T: insert 2, 4, 1; erase 1            (G = (2|4), G.update clean #2)
+#                A: insert(6) parked right before its IFlag CAS (its search saw G clean #2)
+#                T: insert 1, insert 5                   (G gets new children; G clean #3, #4)
+#                D: erase(1) parked right before its DFlag CAS
+#                T: insert 3                             (changes D's parent: D's Mark CAS must fail)
+#                D: DFlag CAS, Mark CAS fails, undo CAS on G, parked right after it;  A resumes;  D finishes.
+# All step numbers are measured on the real variant (monitor tsteps / twrites of pilot runs), the final schedules sweep the
+# three parking points by a few steps.  Unchanged code: A's IFlag CAS fails (G's version moved on), every history is linearizable.
+ELLEN_UNDO_VARIANTS_QUICK = [70, 20]
+ELLEN_UNDO_VARIANTS_ALL = [70, 20, 21, 30, 31]
+
+
+def ellen_undo_family(ctx, lin, exes, stats):
+    T = [[1, 2, 12, 0], [1, 4, 14, 0], [1, 1, 11, 0], [6, 1, 0, 0], [1, 1, 21, 0], [1, 5, 25, 0], [1, 3, 23, 0]]
+    A = [[1, 6, 36, 0]]
+    D = [[6, 1, 0, 0]]
+    BIGN = 600
+    info = {"variants": {}, "cases": 0}
+    viol = []
+    for variant in (ELLEN_UNDO_VARIANTS_ALL if ctx.thorough() else ELLEN_UNDO_VARIANTS_QUICK):
+        exe = exes[variant // 10]
+        cfg = [variant, 0] + [0] * NKEYS
+
+        def pilot(tag, threads, sched):
+            c = {"id": "eu%d_%s" % (variant, tag), "cfg": cfg, "threads": threads, "sched": sched, "variant": variant, "hmode": "na"}
+            rc, outs, raw = run_harness(exe, [c], ctx.work, "eu%d_%s" % (variant, tag), timeout=120)
+            o = outs.get(c["id"])
+            if o is None or o["end"] != "finished" or "tsteps" not in o["mon"]:
+                return None, None
+            ts = [int(x) for x in o["mon"]["tsteps"]]
+            tw = {}
+            for item in o["mon"].get("twrites", []):
+                t, _, ps = item.partition(":")
+                tw[int(t)] = [int(x) for x in ps.split(",") if x]
+            return ts, tw
+        ts, tw = pilot("p1", [T[:4]], [0] * BIGN)
+        if ts is None:
+            continue
+        L4 = ts[0]
+        ts, tw = pilot("p2", [T[:4], A], [0] * L4 + [1] * BIGN)
+        if ts is None or not tw.get(1):
+            continue
+        pA = tw[1][0]
+        ts, tw = pilot("p3", [T[:6], A, D], [0] * L4 + [1] * (pA - 1) + [0] * BIGN)
+        if ts is None:
+            continue
+        L6 = ts[0]
+        pre3 = [0] * L4 + [1] * (pA - 1) + [0] * (L6 - L4)
+        ts, tw = pilot("p4", [T[:6], A, D], pre3 + [2] * BIGN)
+        if ts is None or not tw.get(2):
+            continue
+        pD = tw[2][0]
+        ts, tw = pilot("p5", [T, A, D], pre3 + [2] * (pD - 1) + [0] * BIGN)
+        if ts is None:
+            continue
+        L7 = ts[0]
+        pre5 = pre3 + [2] * (pD - 1) + [0] * (L7 - L6)
+        ts, tw = pilot("p6", [T, A, D], pre5 + [2] * BIGN)
+        if ts is None or len(tw.get(2, [])) < 3:
+            continue
+        w3 = tw[2][2]
+        cases = []
+        for da in (0, 1, 2):                 # A parked 1, 2, 3 steps before its IFlag CAS
+            for dd in (0, 1):                # D parked 1, 2 steps before its DFlag CAS
+                for dw in (0, 1, 2, 4):      # D parked 0.. steps after its undo CAS
+                    if pA - 1 - da < 1 or pD - 1 - dd < 1:
+                        continue
+                    sched = ([0] * L4 + [1] * (pA - 1 - da) + [0] * (L6 - L4) + [2] * (pD - 1 - dd) + [0] * (L7 - L6)
+                             + [2] * (w3 - (pD - 1 - dd) + dw) + [1] * BIGN + [2] * BIGN)
+                    cases.append({"id": "eundo%d_%d_%d_%d" % (variant, da, dd, dw), "cfg": cfg, "threads": [T, A, D], "sched": sched,
+                                  "variant": variant, "hmode": "na", "kind": "ellen_undo"})
+        info["variants"][str(variant)] = {"name": VARIANTS[variant][0], "setup_steps": L4, "A_first_cas_at": pA, "D_first_cas_at": pD, "D_undo_cas_at": w3, "schedules": len(cases)}
+        info["cases"] += len(cases)
+        viol += check_variant(ctx, lin, exe, variant, cases, ctx.work, stats)
+    ctx.coverage["ellen_delete_undo_family"] = info
+    return viol
+
+
 def run_observable(ctx, lin, exes, variants, n_per_variant, stats, corpus=()):
     """all variants in parallel (one harness process per variant)"""
     jobs = []
@@ -551,10 +690,25 @@ def run_observable(ctx, lin, exes, variants, n_per_variant, stats, corpus=()):
         cases += [gen_case(rng, v, "v%d_%d" % (v, i)) for i in range(n_per_variant)]
         jobs.append((v, cases))
     viol = []
+    # implementation-guided window schedules: every skip-list variant in the thorough tier, two seed-chosen RCU variants in quick
+    wv = WINDOW_OBS_VARIANTS_ALL if ctx.thorough() else [WINDOW_OBS_VARIANTS_RCU[(ctx.seed + i) % len(WINDOW_OBS_VARIANTS_RCU)] for i in (0, 2)]
+    wrng = {v: ctx.rng.fork() for v in sorted(set(wv)) if v in variants}
+    winfo = {}
+
+    def job(v, cases):
+        if v in wrng:
+            wc, winfo[str(v)] = gen_impl_window_cases(ctx, exes[v // 10], v, wrng[v], ctx.work)
+            cases += wc
+        return check_variant(ctx, lin, exes[v // 10], v, cases, ctx.work, stats)
     with cf.ThreadPoolExecutor(max_workers=min(12, vcheck.NCPU)) as ex:
-        futs = [ex.submit(check_variant, ctx, lin, exes[v // 10], v, cases, ctx.work, stats) for v, cases in jobs]
+        futs = [ex.submit(job, v, cases) for v, cases in jobs]
         for f in futs:
             viol += f.result()
+    ctx.coverage["implementation_guided_window_schedules"] = {
+        "variants": {v: dict(i, name=VARIANTS[int(v)][0]) for v, i in sorted(winfo.items())},
+        "rule": "profiles (steps and CAS / exchange positions of every worker) measured on the REAL variant; victim stalled before each of its writes, actor "
+                "exactly through one of its writes or its whole program, victim gets r more steps, third thread before / after / in between; oracle: verified "
+                "lincheck on the history + quiescent monitors"}
     return viol, {v: cases for v, cases in jobs}
 
 
@@ -649,10 +803,15 @@ def step_correspondence(ctx, lin, only=None):
     n = 4000 if ctx.thorough() else 500
     rng = ctx.rng.fork()
     cases = [c for c in load_corpus("C15") if c.get("step")] + [gen_step_case(rng, "s%d" % i) for i in range(n)]
+    winfo = None
+    if only is None:
+        wcases, winfo = gen_window_cases(ctx, "skip", model, ctx.rng.fork())
+        cases += wcases
     if only is not None:
         cases = [only]
     rc1, mlog, rc2, ilog, raw = conc_check.run_both(ctx, model, impl, cases, tag="skipstep", timeout=1500, fuel=60000)
     diverged, steps, first = 0, 0, None
+    wdiverged = 0
     contended, shapes, by_theorem = 0, set(), 0
     for c in cases:
         m, i = mlog.get(c["id"]), ilog.get(c["id"])
@@ -665,8 +824,11 @@ def step_correspondence(ctx, lin, only=None):
         shapes.add(hash(tuple(m["lines"])))
         if any(" cas " in l and l.endswith(" 0") for l in m["lines"]):
             contended += 1
+        if dv is not None and c.get("kind") == "window" and "outoffuel" in str(dv.get("model")):
+            continue          # a window schedule that makes a thread spin beyond the model's loop fuel: prefix agreement only
         if dv is not None:
             diverged += 1
+            wdiverged += 1 if c.get("kind") == "window" else 0
             first = first or (c, dv)
         elif (all(o[0] in (1, 6, 10) for th in c["threads"] for o in th) and m.get("end") == "finished"
               and not any("outoffuel" in l for l in m["lines"])):
@@ -681,7 +843,7 @@ def step_correspondence(ctx, lin, only=None):
         for v, c, h in zip(run_lincheck(lin, "set", hs, ctx.work, "skipstep"), cs, hs):
             if v != "OK":
                 ctx.violation("intrusive::SkipListSet<HP> (step harness): history is not linearizable w.r.t. SetSpec (lincheck: %s)" % v,
-                              {"case": c, "history": h, "step": True})
+                              {"case": {k: x for k, x in c.items() if k not in ("solo", "solo_w")}, "history": h, "step": True})
                 found = True
                 break
         if not found:
@@ -694,11 +856,100 @@ def step_correspondence(ctx, lin, only=None):
         "cases": len(cases), "diverged": diverged, "impl_steps_compared": steps, "traces_validated_against_impl": len(cases) - diverged,
         "distinct_event_logs": len(shapes), "cases_with_failed_cas": contended,
         "impl_traces_whose_update_history_is_linearizable_by_theorem": by_theorem,
+        "window_schedules": window_evidence(cases, ilog, winfo, wdiverged) if winfo else None,
         "theorem": "C15_skip_run_case_updates_linearizable (programs of insert/erase/contains, no out-of-fuel event; the compared "
                    "implementation trace is the model trace)",
         "rule": "1-3 threads x 1-3 operations, keys 0..3, prefilled subsets, tower heights 1..3; uniform / bursty / run-then-switch / round-robin schedules; "
                 "every atomic access (kind, canonical object, success) and every client event compared line by line"}
     return diverged
+
+
+# ---------------------------------------------------------------------------------------------------------
+# model-guided window schedules for the two step models (lib/conc_windows2.py).  The prefilled keys come from cfg (no set-up
+# thread); 2-3 participants collide on the same key / neighbouring towers / the same parent and grandparent; the victim is stalled
+# before each of its CAS (and before every other access), the actor runs exactly through one of its writes or its whole
+# program, also from the states in which a participant is parked right after one of ITS writes (a tower marked on some levels
+# only, an Ellen node flagged IFlag / DFlag / Mark but not helped yet).
+#   skip list: (name, prefill mask, heights of keys 0..3, programs)        Ellen tree: (name, prefill mask, programs)
+WINDOW_SKIP = [
+    ("erase_erase_find", 0b0010, [0, 2, 0, 0], [[[6, 1]], [[6, 1]], [[10, 1]]]),
+    ("ins_between_vs_erase_pred", 0b0101, [1, 0, 2, 0], [[[1, 1, 2]], [[6, 0]], [[1, 1, 0]]]),
+    ("extract_min_twice", 0b0110, [0, 2, 1, 0], [[[13]], [[13]], [[1, 0, 1]]]),
+    ("extract_max_vs_erase", 0b0111, [0, 1, 2, 0], [[[14]], [[6, 2]], [[1, 3, 2]]]),
+    ("erase_then_ins", 0b0010, [0, 1, 0, 0], [[[6, 1], [1, 1, 1]], [[1, 1, 2]], [[10, 1]]]),
+    ("neighbour_towers", 0b1111, [0, 2, 1, 2], [[[6, 1]], [[6, 2]], [[10, 3]]]),
+    ("ins_ins_erase", 0b0000, [0, 0, 0, 0], [[[1, 1, 2]], [[1, 1, 2]], [[6, 1]]]),
+    ("ins_erase_pairs", 0b0100, [0, 0, 1, 0], [[[1, 1, 2], [6, 1]], [[6, 2], [1, 2, 1]]]),
+]
+WINDOW_ELLEN = [
+    ("erase_erase_ins", 0b0010, [[[6, 1]], [[6, 1]], [[1, 1]]]),
+    ("ins_beside_deleted_leaf", 0b0010, [[[1, 0]], [[1, 2]], [[6, 1]]]),
+    ("erase_neighbours", 0b0110, [[[6, 1]], [[6, 2]], [[10, 2]]]),
+    ("erase_three", 0b1111, [[[6, 0]], [[6, 1]], [[6, 2]]]),
+    ("ins_ins_same", 0b0000, [[[1, 1]], [[1, 1]], [[1, 2]]]),
+    ("ins_erase_pairs", 0b0100, [[[1, 1], [6, 1]], [[6, 2], [1, 2]]]),
+    ("ins_between_erases", 0b1010, [[[1, 2]], [[6, 3]], [[6, 1]]]),
+    ("erase_ins_find", 0b0101, [[[6, 0]], [[1, 1]], [[10, 0]]]),
+]
+WINDOW_QUICK_PER_MODEL = 360
+WINDOW_QUICK_CANDIDATES = 3000
+WINDOW_THOROUGH_PER_MODEL = 10000
+WINDOW_ELLEN_QUICK = 600          # the quick enumeration (r in {0, 2}, <= 3 stall points, <= 2 actor writes + whole program) has ~450 schedules
+WINDOW_ELLEN_THOROUGH = 2500
+
+
+def gen_window_cases(ctx, which, model, rng):
+    """-> (cases, generator info); quick: model-guided selection of WINDOW_QUICK_PER_MODEL schedules, thorough: the enumeration.
+    The extracted Ellen model evaluates the BST monitor after every step (~80 ms per case, 100x the other models): its
+    windows are generated without the load-load stall points (the single-preemption sweep of step_correspondence_ellen covers
+    those), from fewer probe runs, and without the selection run."""
+    import conc_windows2
+    th = ctx.thorough()
+    wdir = os.path.join(ctx.work, "wprobe_" + which)
+    if which == "skip":
+        templates = [{"name": n, "cfg": [mask] + hs, "threads": parts, "setup": 0} for n, mask, hs, parts in WINDOW_SKIP]
+        cases, info = conc_windows2.expand(model, wdir, templates, "wsk_", fuel=60000,
+                                           r_values=tuple(range(0, 13)) if th else (0, 1, 2, 3, 5, 8, 12), read_points=True,
+                                           max_wv=10, staged=True, max_ws=5 if th else 3, staged_max_wa=4 if th else 3,
+                                           staged_r_values=(0, 1, 2, 3, 5, 8) if th else (0, 1, 3, 6), lazy=True)
+        info["enumerated"] = len(cases)
+        if th:
+            cases = conc_windows2.stratified(rng, cases, WINDOW_THOROUGH_PER_MODEL)
+        else:
+            cases = conc_windows2.stratified(rng, cases, WINDOW_QUICK_CANDIDATES)
+            paths = conc_windows2.model_paths(model, wdir, cases, "wsk", fuel=60000)
+            cases, info["selection"] = conc_windows2.select_by_cover(rng, cases, paths, WINDOW_QUICK_PER_MODEL)
+    else:
+        templates = [{"name": n, "cfg": [mask], "threads": parts, "setup": 0} for n, mask, parts in WINDOW_ELLEN]
+        cases, info = conc_windows2.expand(model, wdir, templates, "wel_", fuel=60000,
+                                           r_values=(0, 1, 2, 3, 5, 8, 12) if th else (0, 2), read_points=False,
+                                           max_wv=6 if th else 3, max_wa=4 if th else 2, staged=True, max_ws=3 if th else 1,
+                                           staged_max_wa=3 if th else 2, staged_r_values=(0, 1, 3, 6) if th else (0,),
+                                           shapes=("va", "vo", "mid") if th else ("va", "mid"), staged_shapes=("va", "vo") if th else ("va",), lazy=True)
+        info["enumerated"] = len(cases)
+        if th:
+            cases = conc_windows2.stratified(rng, cases, WINDOW_ELLEN_THOROUGH)
+        else:
+            # a selection run would cost as many model runs as it saves (~80 ms each): the reduced enumeration is run as it is
+            cases = conc_windows2.stratified(rng, cases, WINDOW_ELLEN_QUICK)
+    cases = conc_windows2.finalize(cases)
+    for c in cases:
+        if which == "ellen":
+            c["ellen"] = True
+    info["run"] = len(cases)
+    info.pop("per_template", None)
+    return cases, info
+
+
+def window_evidence(cases, ilog, info, diverged):
+    import conc_windows2
+    ws = conc_windows2.event_stats(cases, ilog)
+    ws["generator"] = info
+    ws["diverged"] = diverged
+    ws["rule"] = ("victim stalled before each CAS and before every other access, actor runs exactly through one of its writes (measured on the model "
+                  "in that state) or its whole program, victim gets r more steps, third thread before / after / in between; also from states with a "
+                  "participant parked right after one of its writes; with_retry_path = a thread executed more CAS than in its solo run")
+    return ws
 
 
 def gen_ellen_case(rng, cid):
@@ -745,10 +996,15 @@ def step_correspondence_ellen(ctx, lin, only=None):
             for i in range(0, 330, stride):
                 cases.append({"id": "w%d" % nsweep, "cfg": [mask], "threads": [[a], [b]], "sched": [0] * i + [1] * 600 + [0] * 600, "ellen": True})
                 nsweep += 1
+    winfo = None
+    if only is None:
+        wcases, winfo = gen_window_cases(ctx, "ellen", model, ctx.rng.fork())
+        cases += wcases
     if only is not None:
         cases = [only]
     rc1, mlog, rc2, ilog, raw = conc_check.run_both(ctx, model, impl, cases, tag="ellenstep", timeout=1500, fuel=60000)
     diverged, steps, first, contended, shapes, monitor_fired, by_theorem = 0, 0, None, 0, set(), 0, 0
+    wdiverged = 0
     for c in cases:
         m, i = mlog.get(c["id"]), ilog.get(c["id"])
         if m is None or i is None:
@@ -762,8 +1018,11 @@ def step_correspondence_ellen(ctx, lin, only=None):
         shapes.add(hash(tuple(m["lines"])))
         if any(" cas " in l and l.endswith(" 0") for l in m["lines"]):
             contended += 1
+        if dv is not None and c.get("kind") == "window" and "outoffuel" in str(dv.get("model")):
+            continue          # a window schedule that makes a thread retry beyond the model's loop fuel: prefix agreement only
         if dv is not None:
             diverged += 1
+            wdiverged += 1 if c.get("kind") == "window" else 0
             first = first or (c, dv)
         elif all(o[0] in (1, 10) for th in c["threads"] for o in th):
             # programs of insert / contains: C15_ellen_bst_invariant covers every state of this (model = implementation) trace
@@ -789,6 +1048,7 @@ def step_correspondence_ellen(ctx, lin, only=None):
                     "contains, search with protect_child_node / search_protect_update and its retries, HP guards, m_nFlags loads, m_nEmptyUpdate, retire; keys 0..3",
         "cases": len(cases), "diverged": diverged, "impl_steps_compared": steps, "traces_validated_against_impl": len(cases) - diverged,
         "distinct_event_logs": len(shapes), "cases_with_failed_cas": contended, "single_preemption_sweep_cases": nsweep,
+        "window_schedules": window_evidence(cases, ilog, winfo, wdiverged) if winfo else None,
         "impl_traces_covered_by_C15_ellen_bst_invariant": by_theorem,
         "bst_monitor": "tree_ok (keys of the left subtree < key <= keys of the right subtree, Inf1 < Inf2 on top, two children per internal node) "
                        "evaluated by the model after every atomic step; violations: %d" % monitor_fired,
@@ -829,6 +1089,13 @@ def run(ctx):
     res = vcheck.coq_build(["Properties/Properties_C15.v"])
     ctx.coq_evidence(res)
     lin = build_lincheck(ctx)
+    only_step = os.environ.get("VERIF_ONLY") == "step" and not ctx.replay
+    if only_step:
+        # mutation experiments on the step-modelled code: the observable stage (8 harness groups) is skipped
+        step_correspondence(ctx, lin)
+        step_correspondence_ellen(ctx, lin)
+        ctx.coverage.update({"restricted_run": "VERIF_ONLY=step", "evaluations": 0, "distinct_nontrivial": 0})
+        return ctx.finish(vcheck.STD_TRUSTED)
     exes = build_groups(ctx, list(range(8)))
     variants = sorted(VARIANTS)
     stats = {}
@@ -854,6 +1121,8 @@ def run(ctx):
     viol, jobs = run_observable(ctx, lin, exes, variants, n, stats, corpus)
     ctx.max_per_what = 1
     for what, obj, sig in viol:
+        ctx.violation(what, obj, signature=sig)
+    for what, obj, sig in ellen_undo_family(ctx, lin, exes, stats):
         ctx.violation(what, obj, signature=sig)
     report_hangs(ctx, stats)
     if not res.ok:
